@@ -202,7 +202,10 @@ func (w *World) registerIntrinsics() {
 			}
 		}
 		// i = -1 and !contains, or s[i:i+len(sub)] == sub and no occurrence later
-		i := e.fresh("lastidx", SInt)
+		i, isNew := e.memoFresh("lastidx|"+s.String()+"|"+sub.String(), "lastidx", SInt)
+		if !isNew {
+			return i
+		}
 		n, m := mkLen(s), mkLen(sub)
 		none := mkAnd(mkEq(i, mkInt(-1)), mkNot(mkContains(s, sub)))
 		at := mkAnd(mkGe(i, mkInt(0)), mkLe(mkAdd(i, m), n),
@@ -641,11 +644,11 @@ func (e *Exec) trimSet(s *Term, set string, left, right bool) *Term {
 	a, b := mkInt(0), mkLen(s)
 	var cs []*Term
 	if left {
-		a = e.fresh("trimL", SInt)
+		a, _ = e.memoFresh("trimL|"+set+"|"+s.String(), "trimL", SInt)
 		cs = append(cs, mkGe(a, mkInt(0)), mkLe(a, mkLen(s)), mkInRe(mkSubstr(s, mkInt(0), a), setStar))
 	}
 	if right {
-		b = e.fresh("trimR", SInt)
+		b, _ = e.memoFresh("trimR|"+set+"|"+s.String(), "trimR", SInt)
 		cs = append(cs, mkGe(b, a), mkLe(b, mkLen(s)), mkInRe(mkSubstr(s, b, mkSub(mkLen(s), b)), setStar))
 	} else {
 		cs = append(cs, mkLe(a, b))
